@@ -388,3 +388,10 @@ def optSafe : Nat → Node → Bool
 def optPushUnsafe (t : Node) : Bool := !optSafe 10 t
 
 end ILV.IR
+
+namespace ILV.IR
+/-- the part of `IQLEngine::optimize_ir` (lib.rs:925) that has a Lean model: optional Boolean
+    specialisation followed by the always-on basic optimizer. -/
+def pipe (bs : Bool) (t : Node) : Node := optimize (if bs then (specialize t).1 else t)
+def pipeSem (bs : Bool) (t : Node) : Semiring := if bs then (specialize t).2 else .counting
+end ILV.IR
